@@ -12,6 +12,7 @@ CREATE TABLE books (id bigint NOT NULL, author_id bigint NOT NULL, title text, p
 CREATE TABLE venues (id bigint NOT NULL, name varchar(100), slug text NOT NULL, created_at timestamptz, "order" int NOT NULL);
 CREATE TABLE archive.books (id bigint NOT NULL, title bigint NOT NULL, archived_at timestamptz NOT NULL);
 CREATE TABLE archive.venues (id bigint NOT NULL, slug text[], note text);
+CREATE TABLE nodes (id bigint NOT NULL, "left" int, "right" int, "full" text, "like" text, "user" text, "binary" text);
 `
 
 const corpusMy = "CREATE TABLE authors (id bigint NOT NULL, name varchar(100) NOT NULL, bio text, age int, active tinyint(1) NOT NULL);\n" +
@@ -71,6 +72,9 @@ var l2CorpusPG = []corpusStmt{
 	{":many", `SELECT id FROM authors WHERE a.b.c = $1`, nil},
 	{":many", `SELECT public.authors.id FROM public.authors WHERE public.authors.name = $1`, nil},
 	{":exec", `TRUNCATE authors`, nil},
+	{":many", `SELECT * FROM nodes`, nil},
+	{":many", `SELECT n.*, a.id AS aid FROM nodes n JOIN authors a ON a.id = n.id`, nil},
+	{":many", `SELECT id, "left", "right", "full", "like", "user", "binary" FROM nodes WHERE "left" = $1`, nil},
 	{":many", `SELECT id FROM authors a WHERE a.name = $1 AND a.id = $2 AND a.bio = $3 AND a.age = $4 AND a.name <> $5 AND a.id <> $6 AND a.bio <> $7 AND a.age <> $8 AND a.name > $9 AND a.id > $10 AND a.bio > $11 AND a.age > $12 AND EXISTS (SELECT 1 FROM books b WHERE b.title = $1)`, nil},
 }
 
